@@ -668,6 +668,9 @@ fn run_profile(ctx: &Ctx) -> Stats {
 fn replay_case(ctx: &Ctx, case: &Value) -> Option<String> {
     install_logger();
     let _quiet = Redirect::start(false);
+    if let Some(r) = crate::engine::emu::replay_setup_write(case) {
+        return r.err();
+    }
     match case.get("kind").and_then(|k| k.as_str()) {
         Some("fault-step") => {
             let c = FCase::from_json(case)?;
@@ -794,5 +797,8 @@ pub fn run(ctx: &Ctx) -> i32 {
     let steps: u64 = stats.classes.iter().filter(|(k, _)| k.contains("step outcome")).map(|(_, v)| *v).sum();
     extra.insert("fraction_of_steps_that_simply_succeed".into(), json!(if steps > 0 { plain_ok as f64 / steps as f64 } else { 0.0 }));
     let rule = "cases = (1) single steps of instruction word sequences (raw random words, interesting first bytes, valid forms of every family with adversarial fields, MES calls with adversarial argument blocks) x adversarial register files (0, 1, 2, 3, 4, 0xFF, 0x7FFFFFFF, 0x80000000, 0xFFFFFFFC-0xFFFFFFFF, every region's first/last address +/- {0,1,2,4}, odd values, upper bytes) x CCR x arbitrary bus-controller bytes x timer registers, executed from every mapped region incl. its last 2/4/6/8 bytes, the vector area, DRAM below the load base and odd addresses, followed by a peripheral update and an interrupt poll; (2) short programs through the real run loop that end in jumps/returns/traps to unmapped or odd targets, fall off the end of DRAM, use slow-bus settings and timer interrupt storms; (3) fuzzed control-line batches (C18's grammar + over-long / negative / empty / separator-only fields, every port, DDR/DR, timer and bus-controller address) through the run loop. A logger at the binary's default level is installed so that log arguments are evaluated. Oracle = catch_unwind + panic hook: any panic is a violation, Ok and Err are both fine. Both build profiles (release; release + overflow checks + debug assertions) are run, the verdict is the union. One step case in 11 starts outside mapped memory (just past a region, in a gap, at or above 2^24): the outcome must be an error, not success; 1 in 12 is a well-formed MES call (long valid UTF-8, every vector number). Non-trivial = the step fails with an error, or the code sits at a region edge, or a register holds a value of the adversarial set; distinct by (code, PC, registers, profile).";
+    if let Some(f) = crate::engine::emu::setup_panic_failure() {
+        stats.fail(f);
+    }
     finish(ctx, P, stats, rule, vec!["absence of panics is never established by search; per-class counts show what was exercised".into(), "aborts/stack overflows would kill the process: the wrapper reports that as exit 2".into()], extra)
 }
